@@ -213,6 +213,32 @@ def distributeToOrders (os : List Order) (amt p : Int) : Option (List Order × I
   | none => none
   | some plan => applyPlan os plan p
 
+/-! ### ghost predicates: nothing is lost in the re-runs (used by the accounting theorems) -/
+
+/-- total of the amounts of a plan -/
+def planSum (plan : List (Order × Int)) : Int := sumInt (plan.map (·.2))
+
+/-- `DistributeOrderAmountToOrders os amt p` loses nothing: the orders that are finally filled (after the re-runs on
+fewer orders) can absorb the whole `amt`.  Mirrors the recursion of `planOrders`. -/
+def lossless : Nat → List Order → Int → Int → Bool
+  | 0, _, _, _ => true
+  | fuel+1, os, amt, p =>
+    let z := shares os amt p
+    let matched := z.filter (fun oa => shareOk oa.1 oa.2 p)
+    if matched.length = z.length then decide (amt ≤ totalMatchable os p)
+    else if matched.isEmpty then lossless fuel os.dropLast amt p
+    else lossless fuel (matched.map (·.1)) amt p
+
+/-- the same for the group loop of `DistributeOrderAmountToTick` -/
+def groupsLossless : List (List Order) → Int → Int → Bool
+  | [], rem, _ => decide (rem ≤ 0)
+  | g :: gs, rem, p =>
+    let openAmt := totalMatchable g p
+    if openAmt = 0 then groupsLossless gs rem p
+    else if rem ≥ openAmt then
+      if rem - openAmt = 0 then true else groupsLossless gs (rem - openAmt) p
+    else lossless (g.length + 1) (sortOrders g) rem p
+
 /-! ### Order book (orderbook.go) -/
 
 structure Tick where
@@ -356,15 +382,17 @@ structure LoopRes where
   sells : List Tick
   q : Int
   last : Option Int
+  /-- ghost (not compared with Go): no sell-side distribution of the loop lost a remainder (`groupsLossless`) -/
+  lossless : Bool := true
 deriving DecidableEq, Repr
 
 /-- the two-sided loop of `Match` (match.go:262-297) from tick positions `bi`, `si` on: the arguments are
 `ob.buys.ticks[bi:]`, `ob.sells.ticks[si:]`; `none` = panic.  Written as a recursion that hands back the
 ticks in place (Go mutates them in place); every iteration advances `bi` or `si`, so `fuel` = number of ticks. -/
 def matchLoop : Nat → Bool → List Tick → List Tick → Option LoopRes
-  | 0, _, bs, ss => some ⟨bs, ss, 0, none⟩
+  | 0, _, bs, ss => some ⟨bs, ss, 0, none, true⟩
   | fuel+1, incr, bt :: bts, st :: sts =>
-    if bt.price < st.price then some ⟨bt :: bts, st :: sts, 0, none⟩ else
+    if bt.price < st.price then some ⟨bt :: bts, st :: sts, 0, none, true⟩ else
     let p := if incr then st.price else bt.price
     let bo := totalMatchable bt.orders p
     let so := totalMatchable st.orders p
@@ -391,8 +419,9 @@ def matchLoop : Nat → Bool → List Tick → List Tick → Option LoopRes
             some { buys := if bo ≤ so then bt' :: r.buys else r.buys,
                    sells := if so ≤ bo then st' :: r.sells else r.sells,
                    q := q1 + q2 + r.q,
-                   last := some (r.last.getD p) }
-  | _, _, bs, ss => some ⟨bs, ss, 0, none⟩
+                   last := some (r.last.getD p),
+                   lossless := groupsLossless (groupOrders st.orders) (if so ≤ bo then so else bo) p && r.lossless }
+  | _, _, bs, ss => some ⟨bs, ss, 0, none, true⟩
 
 inductive MRes
   | panic
@@ -522,30 +551,6 @@ def TickOk (d : Dir) (t : Tick) : Prop := ∀ o ∈ t.orders, Wf o ∧ o.dir = d
 def BookOk (b : Book) : Prop := (∀ t ∈ b.buys, TickOk .buy t) ∧ (∀ t ∈ b.sells, TickOk .sell t)
 
 
-/-- total of the amounts of a plan -/
-def planSum (plan : List (Order × Int)) : Int := sumInt (plan.map (·.2))
-
-/-- `DistributeOrderAmountToOrders os amt p` loses nothing: the orders that are finally filled (after the re-runs on
-fewer orders) can absorb the whole `amt`.  Mirrors the recursion of `planOrders`. -/
-def lossless : Nat → List Order → Int → Int → Bool
-  | 0, _, _, _ => true
-  | fuel+1, os, amt, p =>
-    let z := shares os amt p
-    let matched := z.filter (fun oa => shareOk oa.1 oa.2 p)
-    if matched.length = z.length then decide (amt ≤ totalMatchable os p)
-    else if matched.isEmpty then lossless fuel os.dropLast amt p
-    else lossless fuel (matched.map (·.1)) amt p
-
-/-- the same for the group loop of `DistributeOrderAmountToTick` -/
-def groupsLossless : List (List Order) → Int → Int → Bool
-  | [], rem, _ => decide (rem ≤ 0)
-  | g :: gs, rem, p =>
-    let openAmt := totalMatchable g p
-    if openAmt = 0 then groupsLossless gs rem p
-    else if rem ≥ openAmt then
-      if rem - openAmt = 0 then true else groupsLossless gs (rem - openAmt) p
-    else lossless (g.length + 1) (sortOrders g) rem p
-
 /-- the same for `distributeToTicks` of `MatchAtSinglePrice` -/
 def ticksLossless : List Tick → Int → Int → Bool
   | [], rem, _ => decide (rem ≤ 0)
@@ -554,5 +559,19 @@ def ticksLossless : List Tick → Int → Int → Bool
     if tickAmt ≤ rem then
       if rem - tickAmt = 0 then true else ticksLossless ts (rem - tickAmt) p
     else groupsLossless (groupOrders t.orders) rem p
+
+
+/-- nothing is lost on the sell side during `OrderBook.Match b lp` (ghost, decidable) -/
+def matchLossless (b : Book) (lp : Int) : Bool :=
+  let s := match findMatchableAmount b lp with
+    | none => true
+    | some x => ticksLossless b.sells x lp
+  if priceDirection b lp = .staying then s else
+    let b1 := match matchAtSinglePrice b lp with
+      | .ok b' _ => b'
+      | _ => b
+    s && (match matchLoop (b1.buys.length + b1.sells.length) (priceDirection b lp == .increasing) b1.buys b1.sells with
+      | some r => r.lossless
+      | none => true)
 
 end Comdex.Amm
